@@ -522,6 +522,87 @@ def tsP : P String := do
           else combine ((decs.zip ra).map (fun p => judge c orc true p.1 p.2))
     pure (registryVerdict (j ra) (rb.map j) (rc.map j))
 
+/-- the messages of the google/protobuf files every generated target ships (harness/c04 wktFiles) -/
+def wktFileMsgs : List Name := ["Timestamp", "Duration", "DoubleValue", "FloatValue", "Int64Value", "UInt64Value", "Int32Value",
+  "UInt32Value", "BoolValue", "StringValue", "BytesValue", "FieldMask", "Struct", "Struct.FieldsEntry", "Value", "ListValue",
+  "Empty", "Any"].map wkt
+
+def pkgPlaceholder : Bytes := ascii "@PKG@."
+
+/-- `anyres <schema> <url>`: does the production-built target resolve the Any type URL? -/
+def anyresP : P String := do
+  let sch ← schemaP
+  let url ← hexTok
+  expectTok "=>"
+  let out ← tok
+  let name := urlTypeName url
+  -- user types are package-free on the line; the URL names them through the package placeholder
+  let userMsgs := (sch.msgs.map (·.name)).filter (fun n => !((ascii "google.protobuf.").isPrefixOf n))
+  let targetMsgs : List Name := userMsgs.map (fun n => pkgPlaceholder ++ n) ++ wktFileMsgs
+  let m := if anyResolves targetMsgs url then "found" else "notfound"
+  let _ := name
+  if out == m then pure s!"OK nt b=anyres-{m}"
+  else pure s!"VIOL any-resolution-not-target-only: the target's TypeResolver answers {out} for a type URL whose message the target's own files {if m == "found" then "define" else "do not define"}"
+
+/-- `st …`: k client messages on one WebSocket stream through the real bridge and forwarder; `RS` = what the target was sent -/
+def stP : P String := do
+  let sch ← schemaP
+  expectTok "R"
+  let rootN ← nameTok
+  expectTok "B"
+  let bp ← hexTok
+  let _ ← hexTok
+  expectTok "F"
+  let nf ← natTok
+  let _ ← repeatP nf hexTok
+  let rq ← paramsP
+  expectTok "=>"
+  expectTok "D"
+  let ds ← (do
+    match (← get) with
+    | "panic" :: rest => do
+      set rest
+      pure [DecX.panic]
+    | _ => do
+      let nd ← natTok
+      repeatP nd decP : P (List DecX))
+  let orc ← oracleP
+  expectTok "RS"
+  let n ← natTok
+  let rs ← repeatP n resP
+  match sch.findMsg rootN with
+  | none => pure "BAD root message not in schema"
+  | some root =>
+    let c : Case := { sch := sch, root := root, bd := { bodyPath := bp }, rq := rq }
+    if ds.any (fun d => match d with
+        | .panic => true
+        | _ => false) then pure "OK b=body-codec-panic"
+    else
+      let decs : List Dec := ds.map (fun d => match d with
+        | .dec dd => dd
+        | _ => Dec.none)
+      if rs.length > decs.length then pure s!"VIOL binding-accumulated-across-messages: the target was sent {rs.length} messages for {decs.length} client messages"
+      else
+        -- message i must be transcode(binding, path, query, body_i), independently of the messages before it
+        let verdicts := (decs.zip rs).zipIdx.map (fun ((d, r), i) =>
+          let v := judge c orc true d r
+          if v.startsWith "OK" || i == 0 then v
+          else if v.startsWith "VIOL map-order-dependent" || v.startsWith "VIOL path-variable-over-body-optional" then v
+          else s!"VIOL binding-accumulated-across-messages: message {i + 1} sent to the target is not transcode(binding, path, query, body_{i + 1}) — it depends on earlier messages of the stream: {v}")
+        -- the stream may end early only at a message that is rejected
+        let endV : List String :=
+          if rs.length == decs.length then []
+          else match decs[rs.length]? with
+            | none => []
+            | some d =>
+              let v1 := judge c orc true d (.err "InvalidArgument")
+              let v2 := judge c orc true d (.err "Internal")
+              if v1.startsWith "OK" then [v1] else if v2.startsWith "OK" then [v2]
+              else if rs.length == 0 then [v1]
+              else if v1.startsWith "VIOL map-order-dependent" || v1.startsWith "VIOL path-variable-over-body-optional" then [v1]
+              else [s!"VIOL binding-accumulated-across-messages: message {rs.length + 1} of the stream was refused although transcode(binding, path, query, body_{rs.length + 1}) accepts it: {v1}"]
+        pure (combine (verdicts ++ endV))
+
 /-- fixed schema of the `pf` op (mirrors harness/c04 pfSchema) -/
 def pfEnum : EnumDesc := { name := ascii "PE", values := [(ascii "PE_ZERO", 0), (ascii "PE_ONE", 1), (ascii "PE_NEG", -1), (ascii "PE_MAX", 2147483647), (ascii "ALIAS", 1)] }
 def pfSchema : Schema := { enums := [pfEnum], msgs := [] }
@@ -559,6 +640,16 @@ def handle : Handler
     | some (v, []) => v
     | some (_, _) => "BAD trailing tokens"
     | none => "BAD tc parse"
+  | "st" :: ins, outs =>
+    match stP.run (ins ++ "=>" :: outs) with
+    | some (v, []) => v
+    | some (_, _) => "BAD trailing tokens"
+    | none => "BAD st parse"
+  | "anyres" :: ins, outs =>
+    match anyresP.run (ins ++ "=>" :: outs) with
+    | some (v, []) => v
+    | some (_, _) => "BAD trailing tokens"
+    | none => "BAD anyres parse"
   | "ts" :: ins, outs =>
     match tsP.run (ins ++ "=>" :: outs) with
     | some (v, []) => v
